@@ -176,8 +176,14 @@ func (lip4) Run(c Case) (res Result) {
 				res.Tags = append(res.Tags, "odd-payload")
 			}
 			res.Oracle = append(res.Oracle, lnJunkOracle(func() gopacket.SerializableLayer { return mk() }, payload, fix, csum)...)
-		case "rt":
-			payload := lnUnhex(a[1])
+		case "rt", "bigrt":
+			var payload []byte
+			if name == "rt" {
+				payload = lnUnhex(a[1])
+			} else {
+				payload = udpLCG(lnAtoi(a[1]), lnAtoi(a[2])) // bigrt:<hex>,<n>,<seed>: n pseudo-random payload bytes, summarised observation
+				res.Tags = append(res.Tags, "big-payload")
+			}
 			ip := &layers.IPv4{}
 			cls, _ := ip4Decode(ip, lnUnhex(a[0]))
 			if cls != "ok" {
@@ -202,7 +208,11 @@ func (lip4) Run(c Case) (res Result) {
 			}
 			ip2 := &layers.IPv4{}
 			cls2, tr2 := ip4Decode(ip2, out)
-			res.Obs = append(res.Obs, ip4Obs(cls2, tr2, ip2))
+			if name == "rt" {
+				res.Obs = append(res.Obs, ip4Obs(cls2, tr2, ip2))
+			} else {
+				res.Obs = append(res.Obs, fmt.Sprintf("cls=%s;tr=%s;%s;clen=%d;plen=%d", cls2, lnB(tr2), ip4Fields(ip2), len(ip2.Contents), len(ip2.Payload)))
+			}
 			if len(out) > 65535 {
 				// outside the range of C06_ip4_roundtrip: the datagram does not fit the 16 bit total length
 				res.Tags = append(res.Tags, "length-overflow")
@@ -512,6 +522,22 @@ func (lip4) Gen(rng *rand.Rand, tier string) []Case {
 			p, _ := ip4RandPacket(rng)
 			add("dec2:" + hx(q) + "," + hx(p))
 		}
+	}
+	// (g') total length 65535-3 .. 65535+3 (header + payload), without and with options: the 16 bit
+	// Length field at its bound, the wrap beyond it, and Length 0 (TSO rule) at exactly 65536
+	for _, withOpts := range []bool{false, true} {
+		var p []byte
+		for {
+			p, _ = ip4RandPacket(rng)
+			if (int(p[0]&15) > 5) == withOpts {
+				break
+			}
+		}
+		hl := int(p[0]&15) * 4
+		for k := -3; k <= 3; k++ {
+			add("tag:length-boundary", fmt.Sprintf("bigrt:%s,%d,%d", hx(p[:hl]), 65535-hl+k, rng.Intn(1<<30)))
+		}
+		add("tag:length-boundary", fmt.Sprintf("bigrt:%s,%d,%d", hx(p[:hl]), 65536+20-hl, rng.Intn(1<<30)))
 	}
 	// (g) large payloads around the uint16 length boundary
 	for _, n := range []int{1480, 65514, 65515, 65516} {
